@@ -481,6 +481,8 @@ struct Deco<'x, 'p, 'd> {
     /// allow `^`
     allow_elide: bool,
     allow_create_whole: bool,
+    /// number of marker ranges currently open around the position being decorated
+    open_markers: usize,
 }
 
 const NODE_NAMES: [&str; 4] = ["n0", "n1", "n2", "n3"];
@@ -532,7 +534,14 @@ impl Deco<'_, '_, '_> {
                 out.push(Regex::Assert(n));
             }
             let skip_first_of_left_rec = left_rec_branch && i == 0;
+            let inside_pair = pair.as_ref().is_some_and(|(a, z, _, _)| *a <= i && i < *z);
+            if inside_pair {
+                self.open_markers += 1;
+            }
             let it = if skip_first_of_left_rec { it } else { self.regex(it, active) };
+            if inside_pair {
+                self.open_markers -= 1;
+            }
             out.push(it);
             if let Some((_, z, k, name)) = &pair {
                 if *z == i + 1 {
@@ -559,7 +568,10 @@ impl Deco<'_, '_, '_> {
             if self.allow_elide && !left_rec_branch && self.b.d.chance(1, 8) {
                 out.push(Regex::Elide);
             }
-            if self.allow_create_whole && !self.is_pratt && self.b.d.chance(1, 8) {
+            // an unindexed creation reaches back to the start of the rule: inside an open marker
+            // range or an undoable attempt it would cross them (only generated on request)
+            let crossing_ok = p.crossing || (self.open_markers == 0 && !active_choice);
+            if self.allow_create_whole && !self.is_pratt && crossing_ok && self.b.d.chance(1, 8) {
                 let name = if self.b.d.chance(1, 2) { Some(self.node_name()) } else { None };
                 out.push(Regex::Create(None, name));
             }
@@ -769,7 +781,8 @@ pub fn build(p: &Profile, data: &[u32]) -> Grammar {
                 is_pratt,
                 next_marker: 1,
                 allow_elide: !is_start && !elided,
-                allow_create_whole: (elided && !is_start) || p.c11_shapes,
+                allow_create_whole: true,
+                open_markers: 0,
                 b: &mut b,
             };
             let nb = d.body(body, inc[i]).normalize();
